@@ -37,7 +37,7 @@ func run(t *testing.T, tape *simrt.Tape) *hx.Outcome {
 	out := &hx.Outcome{Counters: map[string]int{}}
 	d := func(n int) int { return tape.Draw("gen", n) }
 	cs := []int{8, 17, 64, 50, 100}[d(5)]
-	spec := common.GenTar(d, tape.Seed, common.GenOpts{ChunkSize: cs, MaxEntries: 14, OddNames: d(2) == 0, BigFiles: d(2) == 0, Dups: d(3) == 0})
+	spec := common.GenTar(d, tape.Seed, common.GenOpts{ChunkSize: cs, MaxEntries: []int{14, 14, 40}[d(3)], OddNames: d(2) == 0, BigFiles: d(2) == 0, Dups: d(3) == 0})
 	tarBytes := spec.Bytes()
 	model, err := common.Model(tarBytes)
 	if err != nil {
